@@ -2,7 +2,7 @@
    conversation.  This file contains only the property theorems, each closed by
    `exact`, pinned by `Check`, followed by `Print Assumptions`. *)
 From Coq Require Import NArith List Bool.
-From SdSd Require Import Poly CrcModel CrcProofs SdModel SdSpec SdBound SdSafety.
+From SdSd Require Import Poly CrcModel CrcProofs SdModel SdSpec SdBound SdSafety SdCapacity SdCardLemmas SdSystem SdInit SdTransfer SdMulti SdLegal.
 Import ListNotations.
 Open Scope N_scope.
 
@@ -48,6 +48,33 @@ Theorem C14_data_block : forall (dstate : Type) (spi : dstate -> spi_call -> dst
       r = if N.land (nth 0 (fit [0] l) 0) DATA_RES_MASK =? DATA_RES_ACCEPTED then Ok tt else Err WriteError)).
 Proof. exact write_data_cases. Qed.
 
+(* ---- C14_legal: the whole conversation is legal.  For every card kind, CRC mode, legal timing oracle,
+   initial memory and every sequence of in-range public calls - including mark_card_uninit followed by
+   re-initialisation at any point - the recorded bus trace (every SPI call with its MOSI and MISO
+   bytes, oldest first) is accepted by the host-side rule checker `accept` of SdSpec.v (rules 1-14:
+   FF fill, frame format, no command while busy, ACMD prefix, identification order, data commands only
+   when ready, data-block format and CRC, multi-block termination).
+   `in_range`: block indices below the card's capacity, 512-byte blocks.  (Out-of-range and faulty
+   runs are covered by the tie: the checker is run on every recorded implementation trace.) *)
+Theorem C14_legal : forall (o : opts) (kd : kind) (csd : list N) (tim : timing),
+  legal_timing tim -> addressable kd csd -> is_csd csd -> CSD_STRUCTURE csd = 0 \/ CSD_STRUCTURE csd = 1 ->
+  forall (mem0 : N -> list N) (cs : list api_call), mem_ok mem0 -> Forall (in_range csd) cs ->
+  exists s', run_calls card card_spi o cs [] (init_st card (power_on kd csd tim mem0)) =
+               (rev (map Ok (spec_values kd csd mem0 cs)), s') /\
+             c_mem (dev s') = spec_mem kd csd mem0 cs /\
+             accept (rev (tr s')) = true.
+Proof. exact legal_histories. Qed.
+
+(* the checker is not vacuous: a data token without a write command, a command sent while the
+   card signals busy, and a frame with a wrong CRC-7 are rejected *)
+Example C14_accept_rejects :
+  accept [Ev (Write [64;0;0;0;0;149]) (Bytes [255;255;255;255;255;255]); Ev (Transfer [255]) (Bytes [1]);
+          Ev (Transfer [254]) (Bytes [255])] = false /\
+  accept [Ev (Transfer [255]) (Bytes [0]); Ev (Write [72;0;0;1;170;135]) (Bytes [255;255;255;255;255;255])] = false /\
+  accept [Ev (Write [64;0;0;0;0;151]) (Bytes [255;255;255;255;255;255])] = false /\
+  accept [Ev (Write [64;0;0;0;0;149]) (Bytes [255;255;255;255;255;255]); Ev (Transfer [255]) (Bytes [1])] = true.
+Proof. vm_compute. repeat split. Qed.
+
 Check (C14_frame : forall cmd arg, cmd < 64 -> arg < 2 ^ 32 -> frame cmd arg = frame_spec cmd arg /\ _).
 Example C14_crc_field_on : forall buf, crc_field {| use_crc := true; acquire_retries := 50 |} buf = be16 (crc16 buf).
 Proof. reflexivity. Qed.
@@ -57,3 +84,4 @@ Proof. vm_compute. reflexivity. Qed.
 Print Assumptions C14_frame.
 Print Assumptions C14_frame_sent.
 Print Assumptions C14_data_block.
+Print Assumptions C14_legal.
